@@ -1739,11 +1739,11 @@ impl World {
         let have: BTreeSet<String> = store::dump(&self.reps[i].ad).keys().cloned().collect();
         let mut missing: Vec<String> = src.keys().filter(|k| !have.contains(*k)).cloned().collect();
         // item names differ from run to run (hash-map order feeds the bytes of packs and blocks): order the
-        // candidates by when the source replica's storage first received them, which is name independent
+        // candidates by a key derived from what each item says (reference model), which is name independent
+        // (not by arrival order either: the order in which a meld writes its items follows their names)
         {
-            let log = self.reps[j].st.writes.lock().unwrap();
-            let first: BTreeMap<&str, usize> = log.iter().filter(|e| e.ok).rev().map(|e| (e.key.as_str(), e.seq)).collect();
-            missing.sort_by_key(|k| first.get(k.as_str()).copied().unwrap_or(usize::MAX));
+            let canon = refmodel::canonical_item_keys(&src);
+            missing.sort_by_key(|k| canon.get(k).cloned().unwrap_or_default());
         }
         self.r.shuffle(&mut missing);
         let take = if self.r.chance(50) { missing.len() } else { self.r.below(missing.len() + 1) };
